@@ -243,16 +243,27 @@ def run(case: dict, ctx) -> dict:
             grain = rng.choice([1, 2, 8])
             ngte = rng.choice([64, 128])
             cap = grain * ngte * rng.randrange(2, 7) + rng.randrange(0, grain * ngte)
+        tight_gd = not far and rng.random() < 0.15
+        if tight_gd:
+            # capacity an exact multiple of what one grain table covers, 128 (or 256) directory entries, and the directory as
+            # the last structure of the file: nothing may be read beyond it
+            grain, ngte = rng.choice([1, 1, 8]), rng.choice([4, 16, 64])
+            cap = grain * ngte * rng.choice([128, 128, 256])
+            desc = None
         ngr = -(-cap // grain)
-        if -(-ngr // ngte) >= 2 and rng.random() < 0.7:
+        if tight_gd:
+            st = {g: "A" for g in rng.sample(range(ngr), min(ngr, 30))}
+        elif -(-ngr // ngte) >= 2 and rng.random() < 0.7:
             st = table_states(rng, ngr, ngte, "AAUZ" if zero_gte else "AAU")
         else:
             st = [rng.choice("AAUZ" if zero_gte else "AAU") for _ in range(ngr)]
         sf, layer, meta = w.build_hosted(
             rng, capacity=cap, grain=grain, ngte=ngte, states=st, placement=placement, tag=tag, version=rng.choice([1, 1, 2, 3]),
             zero_gte=zero_gte, redundant=rng.random() < 0.4, descriptor=desc, align_grains=rng.random() < 0.6,
-            tables_after_data=rng.random() < 0.3, far_sector=far, gd_in_footer=(not far and rng.random() < 0.2),
+            tables_after_data=True if tight_gd else rng.random() < 0.3, far_sector=far, gd_in_footer=(not far and not tight_gd and rng.random() < 0.2),
+            gd_last=tight_gd, redundant_override=False if tight_gd else None,
         )
+        res["cnt"]["directory_is_last_structure_cases"] = int(tight_gd)
     elif k == "stream":
         grain = rng.choice([8, 16, 32, 64, 128])
         ngte = rng.choice([512, 512, 128])
